@@ -192,6 +192,16 @@ std::vector<int> World::queue_order(const std::string &name) {
   return out;
 }
 
+std::string World::bus_side_name(int client) {
+  for (auto &kv : conn_to_client) {
+    if (kv.second != client || !live_conns.count(kv.first)) continue;
+    if (!bus_connection_is_active(kv.first)) return "";
+    const char *n = bus_connection_get_name(kv.first);
+    return n ? n : "";
+  }
+  return "";
+}
+
 int World::n_active() { return bus_connections_get_n_active(bus_context_get_connections(ctx)); }
 int World::n_incomplete() { return bus_connections_get_n_incomplete(bus_context_get_connections(ctx)); }
 
@@ -334,7 +344,7 @@ void World::drain(int ci, size_t max) {
     tr.ev("recv c%d type=%d serial=%u rs=%u member=%s err=%s sender=%s sig=%s", ci, g.m.type, g.m.serial, g.m.reply_serial(),
           g.m.member().c_str(), g.m.error_name().c_str(), g.m.sender().c_str(), g.m.body_sig.c_str());
     if (c.unique.empty() && g.m.type == wire::T_RETURN && c.hello_serial && g.m.reply_serial() == c.hello_serial &&
-        g.m.body.size() == 1 && g.m.body[0].type == 's')
+        g.m.body.size() == 1 && g.m.body[0].type == 's' && g.m.sender() == "org.freedesktop.DBus")
       c.unique = g.m.body[0].str;
     c.got.push_back(std::move(g));
   }
